@@ -46,6 +46,7 @@ BaseOps(s) ==
   \cup {OpRec("with_capacity", "", 0, h, 0, n, 0, <<>>, <<>>, {}) : h \in IF K("with_capacity") THEN nd ELSE {}, n \in Caps \ {OVERFLOW}}
   \cup {OpRec("from_char", "", 0, h, 0, 0, 0, a, <<>>, {}) : h \in IF K("from_char") THEN nd ELSE {}, a \in CharArgs}
   \cup {OpRec("clone", "", 0, h, g, 0, 0, <<>>, <<>>, {}) : h \in IF K("clone") THEN nd ELSE {}, g \in lv}
+  \cup {OpRec("clone_ovf", "", 0, h, g, 0, 0, <<>>, <<>>, {}) : h \in IF K("clone_ovf") THEN nd ELSE {}, g \in {x \in lv : s.hs[x].k = "H"}}
   \cup {OpRec("from_utf8_lossy", "", 0, h, 0, 0, 0, a, <<>>, {}) : h \in IF K("from_utf8_lossy") THEN nd ELSE {}, a \in RawArgs}
   \cup {OpRec(o2, "", 0, h, 0, 0, 0, <<>>, u, {}) : h \in IF K("from_utf16") THEN nd ELSE {}, u \in U16Args, o2 \in {"from_utf16", "from_utf16_lossy"}}
   \cup {OpRec("collect", v, 0, h, 0, n, m, <<>>, x, {}) : h \in IF K("collect") THEN nd ELSE {}, v \in {"chars", "strs"},
